@@ -26,7 +26,7 @@ PROPS = {
     "C13": dict(tests=[T("TestVerifC13Group", 1500, 20000), T("TestVerifC13Store", 400, 6000, shrinktime="0s")]),
     "C14": dict(tests=[T("TestVerifC14", 2500, 30000)]),
     "C15": dict(tests=[T("TestVerifC15", 2500, 30000)]),
-    "C18": dict(tests=[T("TestVerifC18", 6000, 100000),
+    "C18": dict(tests=[T("TestVerifC18", 6000, 100000), T("TestVerifC18Loading", 300, 4000, shrinktime="0s"),
                        # the maphash.Comparable hasher (Go >= 1.24) is exercised with the newer toolchain in the thorough tier
                        dict(T("TestVerifC18", 6000, 50000, th_shards=8), go="go1.26.8", tiers=("thorough",), label="go1.26.8")]),
     "C16": dict(tests=[T("TestVerifC16", 300, 4000, shrinktime="0s", gomaxprocs=[16, 4, 2, 16])]),
